@@ -1,4 +1,5 @@
 import MetapypeModel.Model.Copy
+import MetapypeModel.Model.CopyParents
 /-
   C12 — copy is deep, equal and independent.  For every object tree and every supply of fresh
   identities (induction on trees).
@@ -144,5 +145,38 @@ theorem C12_independent (u : Nat → String) (t : OTree) (s : Supply) (hs : ∀ 
 example : let t : OTree := .mk "a" "p" none none none 0 1 2 3 4 [("k", "v")] [] [("x", "u")] [.mk "b" "c" (some "t") none none 5 6 7 3 8 [] [] [("x", "u")] []]
           (∀ x ∈ t.tags, x < 9) ∧ ((copyO (fun k => "uid" ++ toString k) t ⟨9, 0⟩).1.tags = [9, 10, 11, 12, 13, 14, 15, 16, 17, 18]) := by
   decide
+
+/-! ### parent links -/
+
+theorem ParentsOK_setParent (t : PTree) (p : Option Nat) (h : ParentsOK t) : ParentsOK (t.setParent p) := by
+  cases t with
+  | mk o q ks => simpa [PTree.setParent, ParentsOK] using h
+
+theorem copyP_obj (t : PTree) (s : Nat) : (copyP t s).1.obj = s := by
+  cases t with
+  | mk o p ks => simp [copyP, PTree.obj]
+
+mutual
+theorem copyP_parents : ∀ (t : PTree) (s : Nat), ParentsOK (copyP t s).1
+  | .mk o par ks, s => by
+    simp only [copyP, ParentsOK]
+    exact copyPL_parents ks (s + 5) s
+theorem copyPL_parents : ∀ (ks : List PTree) (s np : Nat), ParentsOKL np (copyPL ks s np).1
+  | [], _, _ => by simp [copyPL, ParentsOKL]
+  | k :: ks, s, np => by
+    simp only [copyPL, ParentsOKL]
+    refine ⟨?_, ParentsOK_setParent _ _ (copyP_parents k s), copyPL_parents ks _ np⟩
+    cases h : (copyP k s).1 with
+    | mk o q ks' => simp [PTree.setParent, PTree.parent]
+end
+
+/-- all parent links below the copy's root point inside the copy: every listed child names the node that lists it -
+    for EVERY original, whatever its own parent links were (missing, stale, pointing into another tree) -/
+theorem C12_parents (t : PTree) (s : Nat) : ParentsOK (copyP t s).1 := copyP_parents t s
+
+/-- the root of the copy keeps the link of the node `copy()` was called on (the shallow copy); the property leaves it alone -/
+theorem C12_root_parent_kept (t : PTree) (s : Nat) : (copyP t s).1.parent = t.parent := by
+  cases t with
+  | mk o p ks => simp [copyP, PTree.parent]
 
 end Metapype
